@@ -32,8 +32,6 @@ func probeCases() map[string]Case {
 	m["findings/C02-F02.json"] = one(gen.Prog(gen.Set("x", gen.Str("abc", 0)), gen.N("idx", gen.Var("x"), gen.Int(5))))
 	// C02-F02b  32-character string indexed at 32
 	m["findings/C02-F02b.json"] = one(gen.Prog(gen.N("idx", gen.Str("abcdefghijklmnopqrstuvwxyzabcdef", 0), gen.Int(32))))
-	// C02-F05  i=0; while i<25 { i=i+1; if 1 { continue } }; i
-	m["findings/C02-F05.json"] = one(gen.Prog(append(loopN("i", 25, gen.N("if", gen.Int(1), gen.Block(gen.N("continue")), gen.None())), gen.Var("i"))...))
 	// C02-F07  i=0; while i<2 { i=i+1; &w = this.x ?? 7; r = w; &w.x = 5 }; r
 	m["findings/C02-F07.json"] = one(gen.Prog(append(loopN("i", 2,
 		&gen.Node{K: "setc", S: "w", Kids: []*gen.Node{gen.Bin("??", &gen.Node{K: "this", S: "x"}, gen.Int(7))}},
@@ -77,6 +75,14 @@ func replayCases() map[string]Case {
 		gen.N("arr",
 			gen.N("slice", gen.Bin("+", gen.Str("1", 0), gen.N("idx", gen.Str("xy", 0), i(0))), i(0), gen.None()),
 			gen.N("slice", gen.Bin("+", gen.N("arr", i(5)), gen.N("idx", v("x"), i(0))), i(1), gen.None()))))
+	// i=0; while i<25 { i=i+1; if 1 { continue } }; i  — break/continue inside an if leaked one block-stack
+	// slot per jump (was C02-F05, repaired in /repo 2d5495a); also nested ifs and break
+	m["replays/C02/break-in-if.json"] = one(gen.Prog(append(loopN("i", 25, gen.N("if", i(1), gen.Block(gen.N("continue")), gen.None())), v("i"))...))
+	m["replays/C02/break-in-nested-if.json"] = one(gen.Prog(append(append([]*gen.Node{gen.Set("n", i(0))}, loopN("i", 60,
+		gen.N("if", gen.Bin(">", v("i"), i(3)), gen.Block(
+			gen.N("if", gen.Bin("%", v("i"), i(2)), gen.Block(gen.Set("n", gen.Bin("+", v("n"), i(1))), gen.N("continue")),
+				gen.Block(gen.N("if", gen.Bin(">", v("i"), i(50)), gen.Block(gen.N("break")), gen.None())))), gen.None()),
+		gen.Set("n", gen.Bin("+", v("n"), i(100))))...), gen.N("arr", v("i"), v("n")))...))
 	// GUIDE: variables of a function live in their own space → [10, 2]
 	m["replays/C02/guide-function-scope.json"] = one(gen.Prog(gen.Set("x", i(2)),
 		&gen.Node{K: "func", S: "g1", Kids: []*gen.Node{gen.Block(gen.Set("x", i(10)), gen.N("ret", v("x")))}},
